@@ -37,7 +37,7 @@ func init() {
 	}})
 }
 
-func (p *c19) NumCases(tier string, seed int64) int { return tierN(tier, 700, 17000) }
+func (p *c19) NumCases(tier string, seed int64) int { return tierN(tier, 2500, 136000) }
 
 var c19Ids = yang.S("module", "ids", yang.S("namespace", "urn:verif:ids"), yang.S("prefix", "ids"), yang.S("identity", "base-id"), yang.S("identity", "near", yang.S("base", "base-id")))
 var c19Ids2 = yang.S("module", "ids2", yang.S("namespace", "urn:verif:ids2"), yang.S("prefix", "ids2"), yang.S("import", "ids", yang.S("prefix", "i")), yang.S("identity", "far", yang.S("base", "i:near")))
